@@ -1,6 +1,7 @@
 package main
 
 import (
+	"regexp"
 	"regexp/syntax"
 )
 
@@ -36,7 +37,15 @@ func (it *Interp) regexMatch(pattern string, s *StrV) *Term {
 	if !isPlainB(s) {
 		t := it.toA(s)
 		it.strLenTerm(t)
-		return App("regex!"+smtSafe(pattern), SBool, t)
+		m := App("regex!"+smtSafe(pattern), SBool, t)
+		if !it.p.lenAx[m.id] {
+			it.p.lenAx[m.id] = true
+			// a pattern that does not match the empty string is matched by non-empty strings only
+			if ok, err := regexp.MatchString(pattern, ""); err == nil && !ok {
+				it.p.assertAxiom(Implies(m, Not(Eq(it.strLenTerm(t), BVu(64, 0)))))
+			}
+		}
+		return m
 	}
 	re, err := syntax.Parse(pattern, syntax.Perl)
 	if err != nil {
